@@ -641,11 +641,11 @@ pub fn ci_z_normal(
     let p = x / n;
     let q = 1. - p;
 
-    if n * p < 10. {
+    if !(n * p >= 10.) {
         // too few successes for statistical significance
         return Err(CIError::TooFewSuccesses(successes, population, n * p));
     }
-    if n * q < 10. {
+    if !(n * q >= 10.) {
         // too few failures for statistical significance
         return Err(CIError::TooFewFailures(
             population - successes,
